@@ -1,5 +1,6 @@
 /- `#print axioms` for every property theorem; machine-read by ./check -/
 import CoreDhcp.Props.C20
+import CoreDhcp.Props.Gen
 import CoreDhcp.Props.C02
 import CoreDhcp.Props.C03
 import CoreDhcp.Props.C03Key
@@ -133,3 +134,5 @@ open CoreDhcp
 #print axioms C03_hkey_total
 #print axioms C03_holds_concrete
 #print axioms C03_restore_concrete
+#print axioms GEN_offset_eq
+#print axioms GEN_addPrefixes_eq
